@@ -78,11 +78,14 @@ func (e *Env) livenessClass(s *State, v, d int, res string) string {
 	switch {
 	case sv == nil:
 		return "validator_removed"
-	case strings.Contains(res, "neg_dec_coin"):
+	case strings.Contains(res, "neg_dec_coin"), strings.Contains(res, "neg_coin") && s.Asset(d) != nil && s.Asset(d).S.Sign() < 0:
 		return "negative_share_total" // the asset's validator-share total drifted below zero (D13): issuance panics
 	case strings.Contains(res, "insufficient_funds"):
 		if e.Mon.ValueChanged {
 			return "pool_short_after_value_change" // D6: entitlements follow CURRENT token values
+		}
+		if precisionStressed(s) {
+			return "pool_short_large_stake" // 18-digit share ratios / indices out of resolution
 		}
 		return "pool_short"
 	case strings.Contains(res, "div_zero"):
@@ -100,6 +103,9 @@ func (e *Env) Probe(st *Step) {
 	kind := f[0]
 	ok := st.Res == "R ok"
 	ctx := e.Ctx
+	if kind == "endblock" && !ok {
+		return // the chain has halted: nothing can be probed on the partial state
+	}
 
 	if probeEnabled("C13") && ok {
 		switch kind {
@@ -196,7 +202,7 @@ func (e *Env) Probe(st *Step) {
 				cls := "pool_short"
 				if e.Mon.ValueChanged {
 					cls = "pool_short_after_value_change" // D6: payout uses current token value
-				} else if a := post.Asset(dl.Denom); a != nil && a.T.Cmp(bigE15) >= 0 {
+				} else if a := post.Asset(dl.Denom); a != nil && a.T.Cmp(bigE15) >= 0 || precisionStressed(post) {
 					cls = "pool_short_large_stake" // the 18-digit per-token index rounds up; times a large stake
 				}
 				st.pfail("C12", cls, "claim of (%d,%d,%d) fails when everybody claims: pool holds %s", dl.Del, dl.Val, dl.Denom, e.App.BankKeeper.GetAllBalances(cctx, e.acctAddr[AccPool]))
@@ -349,6 +355,25 @@ func (e *Env) probeQueries(st *Step) {
 			st.pfail("C20", "delegation_query", "query of (%d,%d,%d) reports %s / %s", dl.Del, dl.Val, dl.Denom, r.Delegation.Balance, r.Delegation.Delegation.Shares)
 		}
 	}
+}
+
+// precisionStressed: the 18-digit fixed point is out of resolution for the split of rewards: an asset total of at least
+// 1e15 base units, or a validator holding less than 1e-9 of an asset's shares (its token total is then known to ~9 digits
+// only, while its delegators' entitlements are computed from integer token values)
+func precisionStressed(s *State) bool {
+	for i := range s.Assets {
+		a := &s.Assets[i]
+		if a.T.Cmp(bigE15) >= 0 {
+			return true
+		}
+		for j := range s.Vals {
+			vs := dcAmt(s.Vals[j].VS, a.Denom)
+			if vs.Sign() > 0 && new(big.Int).Quo(a.S, vs).Cmp(big.NewInt(1_000_000_000)) >= 0 {
+				return true
+			}
+		}
+	}
+	return false
 }
 
 // poolLarge: some reward balance of the pool is at least 1e15 base units
